@@ -194,6 +194,19 @@ func RunC11(c *core.Ctx) {
 				return
 			}
 		}
+		// the exported CreateKey (used by the HTTP key generation page) must take the same decision for master parents
+		if strings.HasPrefix(cs.Parent.Kind, "master") {
+			var exp time.Time = time.Unix(0, 0)
+			if t := ttlOf(cs.Req.TTL); t != 0 {
+				exp = time.Now().Add(time.Duration(t) * time.Second)
+			}
+			_, e := w.b.Svc.VerifKeygen().CreateKey(pk, chName, bk.Perms(strings.Join(cs.Req.Type, "")), exp)
+			if (e == nil) != (cs.Want.Status == 200) {
+				fail(fmt.Sprintf("keygen.CreateKey (the HTTP page's entry) succeeded=%v, the property prescribes status %d", e == nil, cs.Want.Status))
+				return
+			}
+			c.Add("direct_createkey_calls", 1)
+		}
 		if cs.Want.Status != 200 {
 			return
 		}
